@@ -76,40 +76,28 @@ Theorem C12_synth_matches_flags : forall sdate flags tstep,
 Proof. exact synth_flags_matches. Qed.
 Print Assumptions C12_synth_matches_flags.
 
-(* ... and from SDATE/STIME/TSTEP attributes, for steps below 100 hours only (missing: TSTEP >= 1000000) *)
-Theorem C12_synth_matches_attrs_partial : forall sdate stime tstep n,
-  valid_sdate sdate stime tstep = true -> tstep < 1000000 -> (1 <= n)%nat ->
+(* ... and from SDATE/STIME/TSTEP attributes, for EVERY valid step incl. >= 100 hours
+   (repaired code, fixes/C12-add-time-variable-tstep.patch) *)
+Theorem C12_synth_matches_attrs : forall sdate stime tstep n,
+  valid_sdate sdate stime tstep = true -> (1 <= n)%nat ->
   exists ts, impl_synth_attrs sdate stime tstep n = Some ts
              /\ impl_decode_seconds ts = impl_sdate sdate stime tstep n false.
 Proof. exact synth_attrs_matches. Qed.
-Print Assumptions C12_synth_matches_attrs_partial.
+Print Assumptions C12_synth_matches_attrs.
 
-(* FULL statement (all valid steps) is false of the faithful model: a 100-hour step is read as 10 hours *)
-Theorem C12_synth_matches_attrs_refuted : exists sdate stime tstep n ts,
-  valid_sdate sdate stime tstep = true /\ (1 <= n)%nat
-  /\ impl_synth_attrs sdate stime tstep n = Some ts
-  /\ impl_decode_seconds ts <> impl_sdate sdate stime tstep n false.
-Proof.
-  exists 1999365, 230000, 1000000, 2%nat, [946681200; 946717200].
-  vm_compute. repeat split; try reflexivity; try discriminate. repeat constructor.
-Qed.
-Print Assumptions C12_synth_matches_attrs_refuted.
+(* the synthesised time_bounds end one step after the last instant *)
+Theorem C12_synth_bounds_edge : forall tstep ts, valid_step tstep = true -> ts <> [] ->
+  impl_synth_edges tstep ts = ts ++ [lastZ ts + sec_of_hhmmss tstep].
+Proof. exact synth_edges_valid. Qed.
+Print Assumptions C12_synth_bounds_edge.
 
 (* ---- inverse mappings on a CF time variable *)
-(* date2num(getTimes()) = stored values, on reference spellings that cftime reads like the library
-   (missing: an hour without minutes, 'hours since 2000-03-01 19') *)
-Theorem C12_date2num_roundtrip_partial : forall u r vals out,
-  impl_cf_std u r vals = Some out -> d2n_consistent r = true -> impl_date2num u r out = Some vals.
+(* date2num(getTimes()) = stored values for EVERY accepted reference spelling, unit and series
+   (repaired code, fixes/C12-date2num-refdate.patch: both directions use _parse_ref_date) *)
+Theorem C12_date2num_roundtrip : forall u r vals out,
+  impl_cf_std u r vals = Some out -> impl_date2num u r out = Some vals.
 Proof. exact date2num_roundtrip. Qed.
-Print Assumptions C12_date2num_roundtrip_partial.
-
-Theorem C12_date2num_roundtrip_refuted : exists u r vals out,
-  impl_cf_std u r vals = Some out /\ impl_date2num u r out <> Some vals.
-Proof.
-  exists UHours, (Ref SpH 2000 3 1 19 0 0 0), [0], [[2000; 3; 1; 19; 0; 0; 0]].
-  vm_compute. split; [reflexivity|discriminate].
-Qed.
-Print Assumptions C12_date2num_roundtrip_refuted.
+Print Assumptions C12_date2num_roundtrip.
 
 (* time2idx(getTimes()) = 0..n-1 for every strictly ascending time coordinate *)
 Theorem C12_time2idx_identity : forall xs, strictly_asc xs = true ->
@@ -184,4 +172,15 @@ Proof. vm_compute. repeat split; reflexivity. Qed.
 
 Example C12_time2idx_inhabited :
   strictly_asc [-64; 0; 96; 6400] = true /\ impl_time2idx [-64; 0; 96; 6400] [0; 97; 3000] = Some [1; 2; 2].
+Proof. vm_compute. split; reflexivity. Qed.
+
+Example C12_synth_long_step_inhabited :
+  valid_sdate 1999365 230000 1000000 = true
+  /\ impl_synth_attrs 1999365 230000 1000000 2 = Some [946681200; 947041200]
+  /\ impl_decode_seconds [946681200; 947041200] = impl_sdate 1999365 230000 1000000 2 false.
+Proof. vm_compute. repeat split; reflexivity. Qed.
+
+Example C12_date2num_hour_only_inhabited :
+  impl_cf_std UHours (Ref SpH_tz 2000 3 1 19 0 0 60) [0; 96] = Some [[2000; 3; 1; 18; 0; 0; 0]; [2000; 3; 1; 19; 30; 0; 0]]
+  /\ impl_date2num UHours (Ref SpH_tz 2000 3 1 19 0 0 60) [[2000; 3; 1; 18; 0; 0; 0]; [2000; 3; 1; 19; 30; 0; 0]] = Some [0; 96].
 Proof. vm_compute. split; reflexivity. Qed.
